@@ -175,9 +175,14 @@ def check_coverage(ctx, chk):
     pe = [ev for ev in s.events if ev.kind == "call"
           and ev.data["fname"].endswith("_update_host_privesc_vulnerability")]
     rs = [ev for ev in s.events if ev.kind == "raise"]
-    ok = len(ex) == 1 and len(pe) == 1 and len(rs) == 1 and len(s.returns) == 2
+    # the ways out of the retry loop that are not the final raise: `return` inside the loop, or a
+    # `break` (followed by falling off the end; the raise then sits in the loop's else / after a
+    # flag test) - compared as one condition, per iteration
+    brk = [ev for ev in s.events if ev.kind == "break"]
+    exits = [pc for pc, _ in s.returns] + [ev.pc for ev in brk]
+    ok = len(ex) == 1 and len(pe) == 1 and len(rs) == 1 and len(exits) >= 1
     detail = f"{len(ex)} exploit patch, {len(pe)} escalation patch, {len(rs)} raise, " \
-             f"{len(s.returns)} return(s)"
+             f"{len(s.returns)} return(s), {len(brk)} break(s)"
     if ok:
         host, lvl = fi.rparams[1], fi.rparams[2]
         a_ex = [cn.show(a) for a in ex[0].data["args"][1:]]
@@ -185,12 +190,17 @@ def check_coverage(ctx, chk):
         r_ex = cn.show(ex[0].data["result"])
         r_pe = cn.show(pe[0].data["result"])
         conds = sorted(f_show(cn.conj(tuple(c for c in pc if c[0] not in ("inloop", "fact"))))
-                       for pc, _ in s.returns)
-        want = sorted([f"!{r_ex}[1]['access']<{lvl}",
-                       f"({r_ex}[1]['access']<{lvl} & {r_pe}[0])"])
-        ok = a_ex == [host, "False"] and a_pe == [host, "True"] and conds == want and \
-            pe[0].seq > ex[0].seq
-        detail = f"exploit patch{tuple(a_ex)}, escalation patch{tuple(a_pe)}; returns under {conds}"
+                       for pc in exits)
+        F_exit = f_or([cn.conj(tuple(c for c in pc if c[0] not in ("inloop", "fact")))
+                       for pc in exits])
+        low = A(f"{r_ex}[1]['access']<{lvl}")
+        want = f_or([f_not(low), f_and([low, A(f"{r_pe}[0]")])])
+        # the escalation is attempted only when the exploit's access is not enough
+        pe_cond = cn.conj(tuple(c for c in pe[0].pc if c[0] not in ("inloop", "fact")))
+        ok = a_ex == [host, "False"] and a_pe == [host, "True"] and bool(f_equiv(F_exit, want)) \
+            and pe[0].seq > ex[0].seq and bool(f_equiv(pe_cond, low))
+        detail = (f"exploit patch{tuple(a_ex)}, escalation patch{tuple(a_pe)} under "
+                  f"{f_show(pe_cond)[:80]}; leaves the loop under {conds}")
     desc = ("_update_host_to_vulnerable returns only once the chosen exploit grants enough access, "
             "or after an OS-compatible escalation was enabled (os_constraint=True, after the OS was "
             "fixed); otherwise it raises")
@@ -262,9 +272,15 @@ def check_patching(ctx, chk):
         DR = cn.show(draws[0].data["result"])
         sts = [ev for ev in s.events if ev.kind == "store" and ev.data["target"] == "sub"
                and cn.show(ev.data["base"]) == f"{host}.{hostattr}"]
+        # "unconditionally": on every path that ends in the success result (True, definition) -
+        # an early `return False, None` before the draw is not a path of the store
+        succ_pcs = [pc for pc, t in s.returns
+                    if t[0] == "tuple" and t[1] and t[1][0] in (C(True), C(1))]
+        from sa.canon import f_implies
         ok = len(sts) == 1 and cn.show(sts[0].data["idx"]) == f"{DR}['{fld}']" \
             and sts[0].data["value"] in (C(True), C(1)) \
-            and not [c for c in sts[0].pc if c[0] not in ("fact",)] \
+            and bool(succ_pcs) and all(f_implies(cn.conj(pc), cn.conj(sts[0].pc))
+                                       for pc in succ_pcs) \
             and sts[0].seq > draws[0].seq
         chk.ob("C16.patch", what + f"the host is left running the drawn definition's {fld} "
                f"({host}.{hostattr}[drawn['{fld}']] := True, unconditionally)", ok,
@@ -278,7 +294,11 @@ def check_patching(ctx, chk):
             F = cn.conj(tuple(c for c in osc[0].pc if c[0] not in ("fact", "inloop")))
             want = f_and([f_not(A(f"None is {DR}['os']")), f_not(A(oc))])
             args = [cn.show(a) for a in osc[0].data["args"]]
-            ok = f_equiv(F, want) and args[-2:] == [host, f"{DR}['os']"]
+            # (relative to the draw having taken place: the early "nothing applicable" exit is
+            # not part of the condition)
+            Fd = cn.conj(tuple(c for c in draws[0].pc if c[0] not in ("fact", "inloop")))
+            ok = (f_equiv(F, want) or f_equiv(F, f_and([Fd, want]))) \
+                and args[-2:] == [host, f"{DR}['os']"]
             detail = f"_update_host_os({', '.join(a[:60] for a in args)}) under {f_show(F)[:200]}"
         chk.ob("C16.patch", what + "unless the OS must be kept, the host is switched to the drawn "
                "definition's OS when it names one", ok, detail, fi.module.path)
